@@ -348,6 +348,8 @@ impl Property for C10 {
                     }
                 }
                 Op::Long(n) => {
+                    // a dump of thousands of lattice positions costs seconds: long texts run without the debug flag
+                    tok.set_debug(false);
                     let unit = if keys.is_empty() { "a".to_string() } else { format!("{}。", keys[oi % keys.len()]) };
                     let mut text = String::new();
                     while text.chars().count() < *n as usize {
